@@ -15,7 +15,7 @@
  3. code -> spec: seeded random long histories (hundreds of operations, 6 nodes, re-entrant callbacks) are monitored the same
     way, and their complete event logs are validated line by line by TLC against PulseAbs (PulseTrace.tla).
 """
-import collections, concurrent.futures as cf, json, os, re, subprocess, sys, threading, time
+import collections, concurrent.futures as cf, json, os, re, shutil, subprocess, sys, threading, time
 
 try: import vlib, pathcover
 except ImportError: vlib = None          # `python3 c20.py cover ...` (the path cover runs in a process of its own: it is pure Python)
@@ -123,6 +123,9 @@ class Budget:
     def __init__(self, n): self.n = n; self.cv = threading.Condition()
     def tlc(self, *a, **kw):
         w = min(kw.get("workers") or 1, self.n)
+        # TLC unpacks its standard modules into java.io.tmpdir: keep that out of /tmp
+        tmp = vlib.scratch("C20", "tmp"); os.makedirs(tmp, exist_ok=True)
+        kw["env"] = dict(kw.get("env") or {}, JAVA_TOOL_OPTIONS="-Djava.io.tmpdir=" + tmp)
         with self.cv:
             while self.n < w: self.cv.wait()
             self.n -= w
@@ -335,6 +338,7 @@ def run(v, tier, seed):
             tot["states"] += r.distinct; tot["transitions"] += r.generated
             mc_notes.append({"instance": "MC " + tag, "distinct": r.distinct, "generated": r.generated, "depth": r.depth, "tlc_wall_s": round(r.wall, 1)})
 
+    shutil.rmtree(vlib.scratch("C20", "tmp"), ignore_errors=True)
     if tot["followed"] == 0 and not v.violations: raise vlib.MachineryError("no behaviour could be followed")
     if tot["r_reentrant_cycles"] == 0 and not v.violations: raise vlib.MachineryError("vacuity guard: no random cycle had a re-entrant callback")
     cov = {"states": tot["states"], "transitions": tot["transitions"],
